@@ -27,6 +27,8 @@ type Ctx struct {
 	pasteE           *pasteEval
 	fieldMemo        map[string]*types.Var
 	setterMemo       map[*ssa.Function]*setterEval
+	kitErrMemo       *kitErrAnalysis
+	depRaisersMemo   map[*ssa.Function]string
 	nsOnlyFields     bool // ruleCollectBeforeUse: only the per-resource sets (map fields), not the cross-block name spaces
 	dispatch         map[string]*types.Func
 	pasteR           *pasteRoles
